@@ -4,8 +4,6 @@ from __future__ import annotations
 from datetime import datetime
 from typing import cast
 
-import construct  # type: ignore
-
 from han import aidon, dlde, kaifa, kamstrup
 from han.common import MeterMessageBase
 
@@ -64,7 +62,9 @@ class AutoDecoder:
                 decoded = decoder(payload)
                 self.__previous_success = index
                 return decoded
-            except (construct.ConstructError, ValueError):
+            except Exception:  # pylint: disable=broad-except
+                # A decoder given the message of another meter (or junk) can fail in many ways,
+                # not only with ConstructError or ValueError. Any failure means "not this decoder".
                 pass
 
         return None
@@ -98,7 +98,9 @@ class AutoDecoder:
                 )
                 self.__previous_success = index
                 return decoded
-            except (construct.ConstructError, ValueError):
+            except Exception:  # pylint: disable=broad-except
+                # A decoder given the message of another meter (or junk) can fail in many ways,
+                # not only with ConstructError or ValueError. Any failure means "not this decoder".
                 pass
 
         return None
